@@ -472,10 +472,15 @@ static std::string padic_run(Runner<Field>& r, const std::string& v, const std::
     Poly1PadicDom<Field, Dense> PA(r.F, Indeter("X"));
     typename Runner<Field>::Poly R; R.assign(3, r.F.one);
     if (v == "padic.eval") { typename Runner<Field>::Poly A = r.parse_poly(a.at(0)); Integer E(7); PA.eval(E, A); o << E; }
-    else if (v == "padic.eval.u64") { typename Runner<Field>::Poly A = r.parse_poly(a.at(0)); uint64_t E = 7; PA.eval(E, A); o << E; }
     else if (v == "padic.radix") { Integer E(a.at(0).c_str()); o << r.sp(PA.radix(R, E, (int64_t)atol(a.at(1).c_str()))); }
     else o << "UNKNOWN-VARIANT";
     return o.str();
+}
+// the uint64_t overload of eval (only for word-size moduli: `E *= _domain.size()` has no meaning for Modular<Integer>)
+template <class Field>
+static std::string padic_u64(Runner<Field>& r, const std::vector<std::string>& a) {
+    std::ostringstream o; Poly1PadicDom<Field, Dense> PA(r.F, Indeter("X"));
+    typename Runner<Field>::Poly A = r.parse_poly(a.at(0)); uint64_t E = 7; PA.eval(E, A); o << E; return o.str();
 }
 // ---- NewtonInterpGeom: interpolation at the geometric points 1, g, g^2, ... of a black box (here: evaluation of a polynomial)
 template <class Field>
@@ -499,10 +504,10 @@ static std::string geom_run(Runner<Field>& r, const std::string& v, const std::v
     return o.str();
 }
 #ifdef C08_FIELD_mi32
-template <> struct AnchorDispatch<Modular<int32_t> > { static std::string run(Runner<Modular<int32_t> >& r, const std::string& v, const std::vector<std::string>& a) { return v == "interpgeom" ? "UNKNOWN-VARIANT" : padic_run(r, v, a); } };
+template <> struct AnchorDispatch<Modular<int32_t> > { static std::string run(Runner<Modular<int32_t> >& r, const std::string& v, const std::vector<std::string>& a) { return v == "interpgeom" ? "UNKNOWN-VARIANT" : v == "padic.eval.u64" ? padic_u64(r, a) : padic_run(r, v, a); } };
 #endif
 #ifdef C08_FIELD_mi64
-template <> struct AnchorDispatch<Modular<int64_t> > { static std::string run(Runner<Modular<int64_t> >& r, const std::string& v, const std::vector<std::string>& a) { return v == "interpgeom" ? "UNKNOWN-VARIANT" : padic_run(r, v, a); } };
+template <> struct AnchorDispatch<Modular<int64_t> > { static std::string run(Runner<Modular<int64_t> >& r, const std::string& v, const std::vector<std::string>& a) { return v == "interpgeom" ? "UNKNOWN-VARIANT" : v == "padic.eval.u64" ? padic_u64(r, a) : padic_run(r, v, a); } };
 #endif
 #ifdef C08_FIELD_mI
 template <> struct AnchorDispatch<Modular<Integer> > { static std::string run(Runner<Modular<Integer> >& r, const std::string& v, const std::vector<std::string>& a) { return v == "interpgeom" ? "UNKNOWN-VARIANT" : padic_run(r, v, a); } };
